@@ -271,7 +271,7 @@ def run_all(tier, seed, focus):
 
 
 def replay(j):
-    if j.get("kind") == "cacheops":
+    if j.get("sub") == "cacheops":
         from bounded import cacheops
         return cacheops.replay(j)
     print("program:", j.get("program"), "config:", j.get("config"), "recorded:", j.get("what"))
